@@ -86,6 +86,24 @@ class IterV:        # slice::Iter: snapshot + concrete cursor
 
 
 @dataclass
+class EnumV:        # an enum value with symbolic discriminant; payloads per variant (opaque python values)
+    name: str
+    discr: object            # z3 Int
+    variants: list           # [(variant name, [payload values])]
+
+
+@dataclass
+class ListV:        # a vector / slice with a concrete number of python-level elements
+    items: list
+
+
+@dataclass
+class ListIter:
+    items: list
+    idx: int
+
+
+@dataclass
 class Closure:
     fn: Fn
     env: Agg
@@ -134,7 +152,7 @@ class State:
         s.pc = list(self.pc)
         memo = {}
         s.roots = {k: clone_value(c, memo) for k, c in self.roots.items()}
-        s.frames = [{k: clone_value(c, memo) for k, c in fr.items()} for fr in self.frames]
+        s.frames = [{k: (c if k == "__fn" else clone_value(c, memo)) for k, c in fr.items()} for fr in self.frames]
         s.events = [clone_value(e, memo) if isinstance(e, (Cell, Ref, Agg)) else e for e in self.events]
         s.depth = self.depth
         return s
@@ -261,6 +279,11 @@ class Engine:
                     cur = Cell(Agg("Some", [Cell(v.payload)]))
                 elif isinstance(v, Agg) and v.kind == step[1]:
                     pass
+                elif isinstance(v, EnumV):
+                    hit = [pl for (nm, pl) in v.variants if nm == step[1]]
+                    if len(hit) != 1:
+                        raise Unsupported(f"downcast of {v.name} to {step[1]}")
+                    cur = Cell(Agg(step[1], [Cell(x) for x in hit[0]]))
                 elif isinstance(v, Z) and v.e.sort() == DnValue:
                     acc = getattr(DnValue, "p_" + step[1])
                     cur = Cell(Agg(step[1], [Cell(Z(acc(v.e)))]))
@@ -277,7 +300,12 @@ class Engine:
         if s.startswith("copy ") or s.startswith("move "):
             return self.cell_of(st, frame, parse_place(s[5:])).v
         if s.startswith("const "):
-            return self.models.constant(s[6:].strip())
+            name = s[6:].strip()
+            fn = frame.get("__fn")
+            last = name.split("::")[-1]
+            if fn is not None and re.fullmatch(r"[A-Z_0-9]+", last) and last in fn.consts:
+                return Z(z3.IntVal(fn.consts[last]))
+            return self.models.constant(name)
         raise Unsupported("operand: " + s)
 
     # ---- statements
@@ -368,6 +396,7 @@ class Engine:
         for (loc, _ty), v in zip(fn.args, args):
             frame[loc] = Cell(v)
         frame["_0"] = Cell(UNIT)
+        frame["__fn"] = fn
         st.frames.append(frame)
         st.depth += 1
         for (s2, fr2) in self.run_block(fn, "bb0", st, len(st.frames) - 1, {}):
